@@ -233,8 +233,18 @@ def run_case(case):
                 img = run_model(det, variant, frame, bits)
         except Exception as e:  # noqa: BLE001
             if narrow:
-                sigs.append([model, dt_arg, "refused"])
-                continue            # refusing a type that cannot hold full scale is fine
+                # refusing a type that cannot hold full scale is fine - but then also for a frame that never saturates
+                inner = np.where((frame > lo) & (frame < hi), frame, 0.5 * lo + 0.5 * hi)
+                try:
+                    with np.errstate(all="ignore"):
+                        img2 = run_model(det, variant, inner, bits)
+                except Exception:  # noqa: BLE001
+                    sigs.append([model, dt_arg, "refused"])
+                else:
+                    bad("narrow-type-accepted", f"data_type={dt_arg!r} cannot hold full scale {2 ** bits - 1} of a "
+                        f"{bits}-bit converter; refused ({type(e).__name__}) only when the frame saturates, accepted "
+                        f"otherwise (image dtype {img2.dtype})")
+                continue
             bad("raised", f"raised {type(e).__name__}: {str(e)[:200]}")
             continue
         if img.shape != frame.shape:
